@@ -526,7 +526,7 @@ void runC11(Ctx &c)
             const int len = r.range(6, thorough ? 60 : 30);
             for (int step = 0; step < len && !c.case_failed; ++step)
             {
-                int op = r.range(0, 9);
+                int op = r.range(0, 10);
                 int a = r.range(0, (int)live.size() - 1);
                 Live &A = live[a];
                 switch (op)
@@ -646,6 +646,19 @@ void runC11(Ctx &c)
                         live.erase(live.begin() + a);
                     }
                     break;
+                case 9: // a burst of updates with no evaluation in between (counters that wrap, versions that collide)
+                    if (A.m.init && r.coin(0.25))
+                    {
+                        int burst = r.pick(std::vector<int>{255, 256, 257, 512, 300, 64});
+                        for (int q = 0; q < burst; ++q)
+                        {
+                            A.m.C(r.range(0, (int)A.m.C.rows() - 1), r.range(0, dim - 1)) = r.normal();
+                            A.pp->update(A.m.bp, A.m.C, A.m.nc);
+                        }
+                        trace.push_back("burst_of_" + std::to_string(burst) + "_updates obj" + std::to_string(a));
+                        break;
+                    }
+                    /* fallthrough */
                 default: // invalid update makes the object uninitialised; a later valid update revives it
                     if (r.coin(0.4))
                     {
@@ -1012,7 +1025,11 @@ void runC20(Ctx &c)
             if (icls == 0)
                 a = t0, b = t1;
             else if (icls == 1)
-                a = b = r.uni(t0, t1); // zero length
+            {
+                a = b = r.uni(t0, t1); // zero length ...
+                if (r.coin(0.5))
+                    b = a + r.pick(std::vector<double>{5e-7, 1e-6, 2e-7, 1.5e-6, 1e-9}); // ... or shorter than the 1e-6 tolerance
+            }
             else
             {
                 a = r.uni(t0, t1);
@@ -1044,6 +1061,17 @@ void runC20(Ctx &c)
                     dt = std::nextafter(len / k, r.coin() ? INFINITY : -INFINITY);
                 break;
             }
+            }
+            if (!gridAligned && r.coin(0.08))
+            {
+                // large steps on a long interval that is a hair short of a multiple of the step
+                a = t0;
+                int k = r.range(1, 4);
+                dt = r.uni(5.0, 100.0);
+                double shortBy = r.pick(std::vector<double>{2e-6, 1e-5, 5e-6, 2e-5}) * r.uni(0.5, 1.0);
+                b = a + k * dt - shortBy;
+                icls = 2; // not the whole-range overloads
+                c.event("sequence.large_step_hair_short");
             }
             if (gridAligned)
             {
